@@ -670,14 +670,19 @@ Section Proofs.
       destruct (resolve_pending s0 id p a) as [[s1 o1] ready]. cbn [fst snd] in *.
       set (b1 := b0 - cost_ucalls (a_cb_conn a)) in *.
       destruct ready.
-      + specialize (Hready eq_refl). destruct rd.
-        * destruct (read_from_remote_J s1 st1 b1 id p a J1) as (st2 & H2 & J2); try assumption; [unfold b1, b0; lia|].
-          destruct (read_from_remote s1 id p a) as [s2 o2]. cbn [fst snd] in *.
+      + specialize (Hready eq_refl).
+        assert (Hread : exists st', lifecycle_run st (o0 ++ o1 ++ snd (read_from_remote s1 id p a)) = Some st' /\
+                                    J (fst (read_from_remote s1 id p a)) st' (b - cost_answer a)).
+        { destruct (read_from_remote_J s1 st1 b1 id p a J1) as (st2 & H2 & J2); try assumption; [unfold b1, b0; lia|].
           exists st2. split.
-          -- eapply lifecycle_run_app3; [exact H0|]. eapply lifecycle_run_app3; [exact H1|exact H2].
-          -- eapply J_weaken; [exact J2|]. unfold b1, b0, cost_answer. lia.
-        * exists st1. cbn [fst snd]. split; [eapply lifecycle_run_app3; [exact H0|exact H1]|].
-          eapply J_weaken; [exact J1|]. unfold b1, b0, cost_answer. lia.
+          - eapply lifecycle_run_app3; [exact H0|]. eapply lifecycle_run_app3; [exact H1|exact H2].
+          - eapply J_weaken; [exact J2|]. unfold b1, b0, cost_answer. lia. }
+        destruct rd.
+        * destruct Hread as (st2 & H2 & J2). destruct (read_from_remote s1 id p a) as [s2 o2]. cbn [fst snd] in *. eauto.
+        * destruct (r_ready p).
+          -- exists st1. cbn [fst snd]. split; [eapply lifecycle_run_app3; [exact H0|exact H1]|].
+             eapply J_weaken; [exact J1|]. unfold b1, b0, cost_answer. lia.
+          -- destruct Hread as (st2 & H2 & J2). destruct (read_from_remote s1 id p a) as [s2 o2]. cbn [fst snd] in *. eauto.
       + exists st1. cbn [fst snd]. split; [eapply lifecycle_run_app3; [exact H0|exact H1]|].
         eapply J_weaken; [exact J1|]. unfold b1, b0, cost_answer. lia.
   Qed.
